@@ -95,7 +95,7 @@ func portDenoted(ports []int, items []PortItem, p int) bool {
 	return false
 }
 
-func inPrefixes(lits []string, sets []string, a netip.Addr) bool {
+func (c *Case) inPrefixes(lits []string, sets []string, a netip.Addr) bool {
 	a = a.Unmap()
 	for _, s := range lits {
 		if netip.MustParsePrefix(s).Contains(a) {
@@ -103,7 +103,7 @@ func inPrefixes(lits []string, sets []string, a netip.Addr) bool {
 		}
 	}
 	for _, n := range sets {
-		for _, s := range poolPfxSets[n] {
+		for _, s := range c.pfxSetPrefixes(n) {
 			if netip.MustParsePrefix(s).Contains(a) {
 				return true
 			}
@@ -156,7 +156,7 @@ func (c *Case) routeConds(r RouteSpec, q ReqSpec) []condVal {
 	}
 	if len(r.FromPrefixes) > 0 || len(r.FromPfxSets) > 0 {
 		// (GeoIP source conditions cannot be loaded offline: configurations that have them are rejected at load)
-		add("fromPrefixes", vB(inPrefixes(r.FromPrefixes, r.FromPfxSets, netip.MustParseAddr(q.Src))).inv(r.InvFromPfx))
+		add("fromPrefixes", vB(c.inPrefixes(r.FromPrefixes, r.FromPfxSets, netip.MustParseAddr(q.Src))).inv(r.InvFromPfx))
 	}
 	if len(r.ToPorts) > 0 || len(r.ToRanges) > 0 {
 		add("toPorts", vB(portDenoted(r.ToPorts, r.ToRanges, q.DstPort)).inv(r.InvToPorts))
@@ -171,7 +171,7 @@ func (c *Case) routeConds(r RouteSpec, q ReqSpec) []condVal {
 		} else {
 			listed := contains(r.ToDomains, q.DstDom)
 			for _, n := range r.ToDomSets {
-				listed = listed || poolDomSetMatch(n, q.DstDom)
+				listed = listed || c.domSetMatch(n, q.DstDom)
 			}
 			v = vB(listed)
 			if listed && (len(r.ExpPfx) > 0 || len(r.ExpPfxSets) > 0) {
@@ -180,7 +180,7 @@ func (c *Case) routeConds(r RouteSpec, q ReqSpec) []condVal {
 				if !ok {
 					v = vE(class)
 				} else {
-					v = vB(inPrefixes(r.ExpPfx, r.ExpPfxSets, a)).inv(r.InvExpPfx)
+					v = vB(c.inPrefixes(r.ExpPfx, r.ExpPfxSets, a)).inv(r.InvExpPfx)
 				}
 			}
 		}
@@ -191,7 +191,7 @@ func (c *Case) routeConds(r RouteSpec, q ReqSpec) []condVal {
 		var v vset
 		switch {
 		case q.DstDom == "":
-			v = vB(inPrefixes(r.ToPrefixes, r.ToPfxSets, netip.MustParseAddr(q.DstIP)))
+			v = vB(c.inPrefixes(r.ToPrefixes, r.ToPfxSets, netip.MustParseAddr(q.DstIP)))
 		case r.DisableResolve:
 			v = vF()
 		default:
@@ -199,7 +199,7 @@ func (c *Case) routeConds(r RouteSpec, q ReqSpec) []condVal {
 			if !ok {
 				v = vE(class)
 			} else {
-				v = vB(inPrefixes(r.ToPrefixes, r.ToPfxSets, a))
+				v = vB(c.inPrefixes(r.ToPrefixes, r.ToPfxSets, a))
 			}
 		}
 		kinds = append(kinds, v.inv(r.InvToPfx))
@@ -313,7 +313,7 @@ func (c *Case) judge(q ReqSpec, impl, route string) (key, detail string) {
 	case onlyErr:
 		// which route's undecidable condition was passed over or taken for a match
 		for i, cs := range trace {
-			if v := andConds(cs); !v.F || c.Routes[i].Name == route {
+			if v := andConds(cs); len(v.E) > 0 && (!v.F || c.Routes[i].Name == route) {
 				return "silent-resolver-failure:" + notT(cs), detail
 			}
 		}
